@@ -59,8 +59,11 @@ def models(tier):
 def sched_execute(variant, prefix):
     import diameter.node.node as nn
     sk.install()
-    sk.set_line_points({sk.code_of(nn.Node, "route_answer"): None, sk.code_of(nn.Node, "send_message"): None,
-                        sk.code_of(nn.Node, "remove_peer_connection"): None, sk.code_of(nn.Node, "close_connection_socket"): None})
+    pts = {sk.code_of(nn.Node, "route_answer"): None, sk.code_of(nn.Node, "send_message"): None,
+           sk.code_of(nn.Node, "remove_peer_connection"): None, sk.code_of(nn.Node, "close_connection_socket"): None}
+    if hasattr(nn.Node, "_remove_peer_connection"):
+        pts[sk.code_of(nn.Node, "_remove_peer_connection")] = None
+    sk.set_line_points(pts)
     ch = scheddfs.Chooser(prefix)
     sc = scenario.Scenario(BASE, chooser=ch, max_socks=2)
     try:
